@@ -1,4 +1,5 @@
 import MgProof.C01.InvR
+import MgProof.C01.Once
 /-!
 # C01 — property theorems (channel)
 
@@ -36,7 +37,7 @@ theorem read_i_returns_accepted_i (hv : Valid c) (hr : Reach step (mkInit c) s) 
   have hlt : i < s.accepted.length := Nat.lt_of_lt_of_le hi inv.le1
   refine ⟨s.accepted[i], List.getElem?_eq_getElem hlt, ?_⟩
   rw [inv.fifo]
-  simp [List.getElem?_map, List.getElem?_take, hi, List.getElem?_eq_getElem hlt]
+  simp [List.getElem?_map, hi, List.getElem?_eq_getElem hlt]
 
 /-- **Clause "refused as full only if really at capacity at some instant during the call"**:
 every FULL verdict was decided at an instant (the relaxed load of `read_cursor` in sync mode,
@@ -73,6 +74,55 @@ theorem writers_are_serialised (hv : Valid c) (hr : Reach step (mkInit c) s) (t1
   have a := (inv.hold t1).2 ⟨h1, c1⟩
   have b := (inv.hold t2).2 ⟨h2, c2⟩
   rw [a] at b; cases b; rfl
+
+/-- **Clause "messages are read in the order their writes took effect, so each writer's
+messages keep that writer's order"**: within `accepted` (= the read order, by
+`delivered_is_prefix_of_accepted`) the messages of one writer appear with strictly increasing
+index, i.e. in that writer's program order. No hypothesis on `c` at all. -/
+theorem accepted_keeps_each_writers_order (hr : Reach step (mkInit c) s) :
+    s.accepted.Pairwise (fun a b => a.w = b.w → a.k < b.k) :=
+  (reach_invE c s hr).e2
+
+/-- no message is accepted twice -/
+theorem accepted_nodup (hr : Reach step (mkInit c) s) : s.accepted.Nodup := by
+  have h := (reach_invE c s hr).e2
+  refine List.Pairwise.imp ?_ h
+  intro a b hab e
+  subst e
+  exact absurd (hab rfl) (Nat.lt_irrefl _)
+
+/-- **Clause "every message whose write returned success is returned by exactly one read"**,
+safety half: no message is returned by two reads (the delivered list has no duplicates and
+contains only accepted messages; that every accepted message *is* eventually read is the
+progress theorem of C03). -/
+theorem delivered_nodup (hv : Valid c) (hr : Reach step (mkInit c) s) : s.delivered.Nodup := by
+  rw [delivered_is_prefix_of_accepted hv hr]
+  have h : (s.accepted.take s.delivered.length).Nodup :=
+    List.Sublist.nodup (List.take_sublist _ _) (accepted_nodup hr)
+  rw [List.Nodup, List.pairwise_map]
+  exact List.Pairwise.imp (fun hab e => hab (Option.some.inj e)) h
+
+/-- **success ⇒ accepted**: `muggle_channel_write` reported success only for messages that are
+in `accepted` (took effect exactly once, by `accepted_nodup`) -/
+theorem success_implies_accepted (hr : Reach step (mkInit c) s) : ∀ m ∈ s.okNotes, m ∈ s.accepted :=
+  (reach_invE c s hr).e3
+
+/-- **accepted ⇒ success**: a message that took effect has been reported as success, unless
+its writer is still inside that very call, past the publication (between the cursor store and
+the return) -/
+theorem accepted_implies_success_or_in_flight (hr : Reach step (mkInit c) s) :
+    ∀ m ∈ s.accepted, m ∈ s.okNotes ∨ (m.k = s.k m.w ∧ published (s.pc m.w) = true) :=
+  (reach_invE c s hr).e5
+
+/-- a refused (FULL) or not yet published call has not taken effect: the current message of a
+writer whose pc is not past the publication is not in `accepted` -/
+theorem unpublished_not_accepted (hr : Reach step (mkInit c) s) (t : Nat)
+    (hp : published (s.pc t) = false) : (⟨t, s.k t⟩ : Msg) ∉ s.accepted := by
+  intro hm
+  have := ((reach_invE c s hr).e1 _ hm).2
+  rcases this with h | ⟨_, h⟩
+  · exact Nat.lt_irrefl _ h
+  · rw [hp] at h; cases h
 
 /-! ### non-vacuity: a concrete run with a delivery -/
 
